@@ -32,7 +32,7 @@ Print Assumptions C01_reconstruct_exact.
    found); parity = any subset of the true recovery blocks, indexed by exponent.  Repair's
    reconstruction yields exactly the original slices or one of the two permitted errors, with and
    without the double-check. *)
-From Gopar Require Import Model.CRC Model.GoPath Model.FS Model.Par2 Proofs.Par2Facts Proofs.Par2Clean Proofs.Par2Converge Proofs.Par2RepairComplete.
+From Gopar Require Import Model.CRC Model.GoPath Model.FS Model.Par2 Proofs.Par2Facts Proofs.Par2Clean Proofs.Par2Converge Proofs.Par2RepairComplete Proofs.Par2EndToEnd.
 Open Scope N_scope.
 Theorem C01_repair_shards_exact : forall orig kd kp L dbl,
   let nd := length orig in
@@ -110,3 +110,37 @@ Theorem C01_within_capacity_repairs : forall md5 ix dbl fs ds st1 (orig : list b
         exists data, fs_lookup (io_fs st') (file_path ix (di_name info)) = Some data /\ recorded md5 info data)).
 Proof. exact repair_within_capacity_hash_restores. Qed.
 Print Assumptions C01_within_capacity_repairs.
+
+(* THE PROPERTY ITSELF, FROM CREATE TO REPAIR, AS ONE THEOREM (Proofs/Par2EndToEnd.v).
+   After Create has protected `names`/`datas` (any set the writer accepts: `created`), take ANY later state `fs`
+   in which the index is as written, every file matching <base>.*.par2 is one of the written recovery files with
+   its written content (recovery files may have been deleted; the surviving ones are undamaged), and the
+   protected paths hold arbitrary bytes or nothing (damaged, renamed among themselves, deleted).  Under the two
+   local collision-freeness premises for the hash (a slice-sized window with the MD5 and CRC-32 of original slice
+   k is that slice; content with a file's length, MD5 and 16k-MD5 is that file), distinct protected paths and no
+   directory in the place of a missing file:
+     Verify succeeds and counts as usable exactly the recovery blocks of the surviving recovery files, and if it
+     reports repair as possible, Repair returns success with EVERY protected file BYTE-IDENTICAL to its original,
+     or the singular-system error - nothing else, for every slice size, block count and double-check setting. *)
+Theorem C01_create_damage_repair : forall md5, (forall x, length (md5 x) = 16%nat) ->
+  forall parPath sz np names datas outs fs0 fs dbl,
+  created md5 parPath sz np names datas outs ->
+  damaged_archive parPath outs fs0 fs ->
+  let ix := strip_ext parPath ++ EXT_PAR2 in
+  let orig := originals md5 sz names datas in
+  (forall name, In name names -> fs_lookup fs (file_path ix name) = None -> is_dir fs (file_path ix name) = false) ->
+  (forall name dat, In name names -> fs_lookup fs (file_path ix name) = Some dat -> wf_bytes dat) ->
+  NoDup (map (file_path ix) names) ->
+  (forall k w, (k < length orig)%nat -> length w = sz -> wf_bytes w ->
+     md5 w = md5 (nth k orig []) -> crc32 w = crc32 (nth k orig []) -> w = nth k orig []) ->
+  (forall name data data', In (name, data) (combine names datas) -> wf_bytes data' ->
+     length data' = length data -> md5 data' = md5 data -> hash16k md5 data' = hash16k md5 data -> data' = data) ->
+  exists c st1, par2_verify md5 ix (io_init fs []) = (Ok c, st1) /\
+    c_pusable c = length (surviving_exponents (strip_ext parPath) np fs) /\
+    (repair_possible c = true ->
+     exists r rp st', par2_repair md5 ix dbl (io_init fs []) = ((r, rp), st') /\
+       (r = Err ESingular \/
+        (r = Ok tt /\ forall name data, In (name, data) (combine names datas) ->
+                        fs_lookup (io_fs st') (file_path ix name) = Some data))).
+Proof. exact create_damage_verify_repair. Qed.
+Print Assumptions C01_create_damage_repair.
